@@ -265,6 +265,7 @@ func main() {
 			},
 		})
 	}
+	metricOps(c)
 	c.Assume = []string{
 		"scheduling points: every synchronisation operation and every access to a hooked shared field (Metric.LabelValues/labelValuesMap/Source/Limit/Buckets/Keys, LabelValue.Expiry/Value/Labels, Store.Metrics, datum.String.Value, datum.Buckets.Buckets/Count/Sum, VM.runtimeError/terminate/input) of metrics, datum, exporter and vm",
 		"a race is two accesses to the same field address from different threads, at least one a write, not ordered by the happens-before relation built from mtail's own mutexes, rwmutexes, waitgroups, channels, atomics and goroutine starts; scheduler hand-offs add no edge",
